@@ -509,7 +509,21 @@ func (s *server) kill() {
 	}
 }
 
+// every driver process takes its ports from its own block below the ephemeral range (parallel drivers that ask
+// the kernel for a free port and close it again can pick the same one)
+var portSeq int
+
 func freePort() string {
+	for try := 0; try < 400; try++ {
+		portSeq++
+		port := 5000 + (os.Getpid()%250)*100 + portSeq%100
+		l, err := net.Listen("tcp", fmt.Sprintf(":%d", port))
+		if err != nil {
+			continue
+		}
+		l.Close()
+		return fmt.Sprint(port)
+	}
 	l, _ := net.Listen("tcp", "127.0.0.1:0")
 	defer l.Close()
 	_, p, _ := net.SplitHostPort(l.Addr().String())
